@@ -16,19 +16,23 @@ ROOT = cf.ROOT
 
 # which suites decide which property, per tier
 PLAN = {
-    "C01": {"quick": ["struct3", "struct3z", "seg13z"],
-            "thorough": ["struct3", "struct3c", "struct3z", "struct4", "seg13", "seg13z", "seg22", "seg3d", "feat13"]},
-    "C03": {"quick": ["struct3"], "thorough": ["struct3", "struct4", "seg13"]},
-    "C04": {"quick": ["struct3"], "thorough": ["struct3", "struct4", "seg13"]},
-    "C05": {"quick": ["struct3"], "thorough": ["struct3", "struct4", "seg13"]},
-    "C06": {"quick": ["struct3"], "thorough": ["struct3", "struct4", "seg13"]},
+    "C01": {"quick": ["struct3", "struct4s", "struct3z", "struct3p", "seg13z"],
+            "thorough": ["struct3", "struct4s", "struct3c", "struct3z", "struct3p", "struct4", "seg13", "seg13z", "seg22", "seg3d", "feat13"]},
+    "C03": {"quick": ["struct3", "struct4s"], "thorough": ["struct3", "struct4s", "struct4", "seg13"]},
+    "C04": {"quick": ["struct3", "struct4s"], "thorough": ["struct3", "struct4s", "struct4", "seg13"]},
+    "C05": {"quick": ["struct3", "struct4s"], "thorough": ["struct3", "struct4s", "struct4", "seg13"]},
+    "C06": {"quick": ["struct3", "struct4s"], "thorough": ["struct3", "struct4s", "struct4", "seg13"]},
     "C07": {"quick": ["seg13", "seg3d"], "thorough": ["seg13", "seg22", "seg3d", "seg13n"]},
     "C08": {"quick": ["seg13", "seg3d"], "thorough": ["seg13", "seg22", "seg3d", "seg13n"]},
     "C09": {"quick": ["seg13", "seg3d"], "thorough": ["seg13", "seg22", "seg3d", "seg13n"]},
     "C10": {"quick": ["featns", "feat13"], "thorough": ["featns", "feat13", "feat22"]},
-    "C11": {"quick": ["struct3", "seg13"], "thorough": ["struct3", "struct3c", "struct4", "seg13", "seg22"]},
-    "C20": {"quick": ["struct3", "seg13"], "thorough": ["struct3", "struct4", "seg13"]},
+    "C11": {"quick": ["struct3", "struct4s", "struct3p", "seg13"], "thorough": ["struct3", "struct4s", "struct3p", "struct3c", "struct4", "seg13", "seg22"]},
+    "C20": {"quick": ["struct3", "struct4s", "seg13"], "thorough": ["struct3", "struct4s", "struct4", "seg13"]},
 }
+
+# random sessions in which TLC evaluates the property's state invariant after every call
+SESSION_SUITES = {"C03": ("struct4", "struct3"), "C04": ("struct4", "struct3"), "C05": ("struct4", "struct3"),
+                  "C06": ("struct4", "struct3"), "C07": ("seg13",), "C08": ("seg13",), "C09": ("seg13",)}
 
 NONTRIVIAL_RULE = {
     "C01": "accepted edit from a state satisfying all state invariants, followed by undo() and redo()",
@@ -57,6 +61,7 @@ def run(prop, tier, seed, replay_path=None):
     logs = []
     log = logs.append
     violations, drift_all, samples = [], [], []
+    session_viols, session_info = [], []
     design, cats, reps, traces = [], [], [], []
     total_records = nontrivial = 0
     try:
@@ -91,6 +96,12 @@ def run(prop, tier, seed, replay_path=None):
                     r = cf.get_record(shards[0], k)
                     if r:
                         samples.append(short(r))
+        # state invariants along whole sessions (history-dependent behaviour: several undos, then edits)
+        if prop in SESSION_SUITES:
+            from . import hist_check
+            sv, session_info = hist_check.session_phase(prop, tier, seed, scratch_root, log, SESSION_SUITES[prop])
+            for v in sv:
+                session_viols.append(v)
     except MachineryError as e:
         print(f"MACHINERY-ERROR property={prop}: {e}")
         for l in logs[-2:]:
@@ -113,6 +124,19 @@ def run(prop, tier, seed, replay_path=None):
                 path = os.path.join(rdir, f"{sname}_{n_viol}.json")
                 json.dump({"property": prop, "suite": sname, "record": rec}, open(path, "w"))
                 print(f"VIOLATION property={prop} replay={path}")
+    seen_s = set()
+    for v in session_viols:
+        sig = json.dumps(v["calls"])
+        if sig in seen_s:
+            continue
+        seen_s.add(sig)
+        n_viol += 1
+        if n_viol <= 30:
+            os.makedirs(rdir, exist_ok=True)
+            path = os.path.join(rdir, f"session_{v['suite']}_{len(seen_s)}.json")
+            json.dump({"property": prop, "suite": v["suite"], "failing_step": v["step"], "session": v["session"]},
+                      open(path, "w"))
+            print(f"VIOLATION property={prop} replay={path}")
     for d in drift_all[:10]:
         print(f"DRIFT property={prop} suite={d['suite']} call={d['call']} what={d['what']} path={d['path']}")
     cov = {
@@ -126,6 +150,7 @@ def run(prop, tier, seed, replay_path=None):
         "samples": samples[:6],
         "exhaustive": all(c["catalogue_used"] == c["catalogue_states"] for c in cats),
         "design_level": design, "catalogue": cats, "replay": reps, "trace_check": traces,
+        "sessions": session_info,
         "drift": drift_all[:20], "drift_count": sum(t["drift"] for t in traces),
         "refinement_holds": sum(t["drift"] for t in traces) == 0,
     }
